@@ -588,6 +588,11 @@ class ActionEval(object):
                         return cur
                     cur = self.ev(node) if t is False else Cond(cur, cur, self.ev(node))
             return cur
+        if isinstance(e, ast.UnaryOp) and isinstance(e.op, ast.Not):
+            t = self.test(e.operand)
+            if t is True or t is False:
+                return Const(not t)
+            return Opaque('not', [t] if isinstance(t, Term) else [])
         if isinstance(e, ast.IfExp):
             t = self.test(e.test)
             if t is True:
